@@ -1325,6 +1325,25 @@ impl ObjectFile {
     }
 }
 
+#[cfg(endorpersand_lc3_ensemble_verif)]
+impl ObjectFile {
+    /// Verification hook: the blocks `(start, words)` of this object file.
+    pub fn verif_block_iter(&self) -> impl Iterator<Item=(u16, &[Option<u16>])> {
+        self.block_iter()
+    }
+}
+#[cfg(endorpersand_lc3_ensemble_verif)]
+impl SymbolTable {
+    /// Verification hook: the relocation entries `(address, label)`.
+    pub fn verif_rel_iter(&self) -> impl Iterator<Item=(u16, &str)> + '_ {
+        self.rel_map.iter().map(|(&a, l)| (a, l.as_str()))
+    }
+    /// Verification hook: the recorded source offset of a label (by its stored key).
+    pub fn verif_label_src_start(&self, key: &str) -> Option<usize> {
+        self.label_map.get(key).map(|d| d.src_start)
+    }
+}
+
 /// Used for [`std::fmt::Debug`] purposes.
 #[repr(transparent)]
 struct Addr(u16);
